@@ -5,4 +5,5 @@ import (
 	_ "verif/props/c01"
 	_ "verif/props/c02"
 	_ "verif/props/c11"
+	_ "verif/props/c19"
 )
